@@ -1644,26 +1644,27 @@ theorem c08_get_ncpu_spec (cfgNcpu loc : Option Int) :
 
 /-- the full statement one would like: every seed label of the appended rows is new -/
 def c08_extend_all_labels_fresh_statement : Prop :=
-  ∀ (gen : Nat → Nat → Nat) (start : Nat) (file : List Nat) (cur pos ncpu : Nat),
-    ∀ l ∈ extendLabels gen id start file cur pos ncpu, l ∉ file
+  ∀ (gen : Nat → Nat → Nat) (start : Nat) (file : List Nat) (cur pos n ncpu : Nat),
+    ∀ l ∈ extendLabels gen id start file cur pos n ncpu, l ∉ file
 
 /-- it is false: the worker seeds are words of the new seed's stream and nothing compares them with
 the file (file seeds `{1, 7}`, service seed 1, a generator whose first word is 7, two processes) -/
 theorem c08_extend_all_labels_fresh_counterexample : ¬ c08_extend_all_labels_fresh_statement := by
   intro h
-  exact absurd (h (fun _ _ => 7) 1 [1, 7] 1 0 2 7 (by decide)) (by decide)
+  exact absurd (h (fun _ _ => 7) 1 [1, 7] 1 0 2 2 7 (by decide)) (by decide)
 
 /-- what does hold: the label of the master rows (the seed left in the caller's service) is new,
 and with one process it is the only label -/
 theorem c08_extend_all_labels_fresh_partial {V : Type} (gen : Nat → Nat → V) (toSeed : V → Nat)
-    (start : Nat) (file : List Nat) (cur pos ncpu : Nat) :
-    (extendLabels gen toSeed start file cur pos ncpu).head? = some (extendSeed start file cur) ∧
+    (start : Nat) (file : List Nat) (cur pos n ncpu : Nat) :
+    (extendLabels gen toSeed start file cur pos n ncpu).head? = some (extendSeed start file cur) ∧
       extendSeed start file cur ∉ file ∧
-      (ncpu ≤ 1 → ∀ l ∈ extendLabels gen toSeed start file cur pos ncpu, l ∉ file) := by
+      (ncpu ≤ 1 → ∀ l ∈ extendLabels gen toSeed start file cur pos n ncpu, l ∉ file) := by
   refine ⟨rfl, c08_next_seed_fresh start file cur, ?_⟩
   intro hn l hl
   have h0 : ncpu - 1 = 0 := by omega
-  simp only [extendLabels, workerSeeds, h0, List.range_zero, List.map_nil, List.mem_singleton] at hl
+  simp only [extendLabels, workerSeeds, h0, List.range_zero, List.map_nil, List.zip_nil_left, List.filter_nil,
+    List.mem_singleton] at hl
   rw [hl]
   exact c08_next_seed_fresh start file cur
 
@@ -1702,7 +1703,7 @@ theorem createLoop_ok (gen : Nat → Nat → V) (toSeed : V → Nat) (cfgOf : G 
     obtain ⟨rfl, rfl⟩ := h
     simp
   | cons g rest ih =>
-    unfold createLoop at h
+    unfold createLoop doTrialsPost at h
     cases hd : doTrials gen toSeed (cfgOf g) n ncpu w a ms with
     | error e => rw [hd] at h; cases e <;> simp at h
     | ok r =>
@@ -1808,6 +1809,32 @@ theorem c08_extend_file_fresh (gen : Nat → Nat → V) (toSeed : V → Nat) (cf
         simp only [List.getElem_map, List.getElem_replicate]
         rw [i7 hc _ (List.getElem_mem _), hs]
 
+/-- the post-state of a raising `do_trials`: untouched, except that with `n = 0` and several
+processes the worker seeds are already drawn -/
+theorem c08_do_trials_poststate (gen : Nat → Nat → V) (toSeed : V → Nat) (cfg : TrialCfg V D R) (n ncpu : Nat)
+    (w : World) (a : Nat) (ms : Option Nat) :
+    (doTrialsPost gen toSeed cfg n ncpu w a ms).1 = doTrials gen toSeed cfg n ncpu w a ms ∧
+      (ncpu = 0 → (doTrialsPost gen toSeed cfg n ncpu w a ms).2 = w) ∧
+      (n = 0 → 0 < ncpu → ∀ b, b ≠ a → (doTrialsPost gen toSeed cfg n ncpu w a ms).2 b = w b) ∧
+      (n = 0 → 0 < ncpu → (doTrialsPost gen toSeed cfg n ncpu w a ms).2 a = (w a).adv (ncpu - 1)) := by
+  unfold doTrialsPost doTrials
+  refine ⟨?_, ?_, ?_, ?_⟩
+  · split_ifs <;> rfl
+  · intro h; simp [h]
+  · intro hn hc b hb
+    have : ncpu ≠ 0 := by omega
+    simp only [this, if_false, hn, if_true]
+    split_ifs
+    · rfl
+    · exact C08.set_other _ _ _ _ hb
+  · intro hn hc
+    have : ncpu ≠ 0 := by omega
+    simp only [this, if_false, hn, if_true]
+    split_ifs with h1
+    · have : ncpu - 1 = 0 := by omega
+      simp [this, Stream.adv]
+    · exact C08.set_same _ _ _
+
 end createFile
 
 section grid
@@ -1835,3 +1862,43 @@ example : gridOf (fun i : Nat => (i : ℚ)) (fun x => ⌈x⌉₊) (.range3 0 2 1
   have h : ⌈((2 : ℚ) + 1 - 0) / 1⌉₊ = 3 := by norm_num
   simp only [gridOf, arange, h]
   simp [List.range_succ]
+
+
+/-! ## the time-generation service, code-shaped: the premise of the `c08_time_*` theorems discharged -/
+
+section timeCode
+variable {V F : Type} [LE F] [LT F] [DecidableLE F] [DecidableLT F] [Add F] [Sub F] [Mul F] [OfNat F 0]
+
+/-- the code-shaped model of `draw_ontimes` (no store on the object) has a transparent cache -/
+theorem c08_time_code_transparent (toU : (Nat → V) → Nat → F) : (ltCfg toU).Transparent :=
+  fun _ _ _ _ _ => rfl
+
+/-- **used object = fresh object** for `draw_ontimes` / `generate_times` as coded: unconditional -/
+theorem c08_time_code_fresh_vs_used (gen : Nat → Nat → V) (toU : (Nat → V) → Nat → F)
+    (st : TState (List (F × F)) Unit) (a : Nat) (win : Option (Option F × Option F)) (size : Nat)
+    (h : List (TOp (List (F × F)) (Option F × Option F)))
+    (h1 : ∀ op ∈ h, op.setsIvs = false) (h2 : ∀ op ∈ h, op.touches a = false) :
+    (tstep gen (ltCfg toU) (trun gen (ltCfg toU) st h).1 (.draw a win size)).2 =
+      (tstep gen (ltCfg toU) ⟨st.ivs, none, st.world⟩ (.draw a win size)).2 :=
+  c08_time_fresh_vs_used gen (ltCfg toU) (c08_time_code_transparent toU) st a win size h h1 h2
+
+/-- **same seed, same times** for the code-shaped draw, with the times spelled out: after a reseed
+with `s` the draw returns the inverse CDF of the first `size` deviates of the stream of `s` -/
+theorem c08_time_code_same_seed_same_times (gen : Nat → Nat → V) (toU : (Nat → V) → Nat → F)
+    (st : TState (List (F × F)) Unit) (h : List (TOp (List (F × F)) (Option F × Option F))) (a s : Nat)
+    (win : Option (Option F × Option F)) (size : Nat) (hh : ∀ op ∈ h, op.setsIvs = false) :
+    (tstep gen (ltCfg toU) (trun gen (ltCfg toU) st (h ++ [.reseed a s])).1 (.draw a win size)).2 =
+      some (allSome ((List.range size).map (fun k =>
+        Livetime.drawWin st.ivs (win.bind (fun p => p.1)) (win.bind (fun p => p.2))
+          (toU ((Stream.fresh s).view gen) k)))) :=
+  (c08_time_same_seed_same_times gen (ltCfg toU) (c08_time_code_transparent toU) st st rfl h h a s win size hh hh).1
+
+/-- a draw reads `2 · size` words of the service it is given and nothing of any other service -/
+theorem c08_time_code_consumption (gen : Nat → Nat → V) (toU : (Nat → V) → Nat → F)
+    (st : TState (List (F × F)) Unit) (a : Nat) (win : Option (Option F × Option F)) (size : Nat) :
+    (tstep gen (ltCfg toU) st (.draw a win size)).1.world a = (st.world a).adv (2 * size) ∧
+      ∀ b, b ≠ a → (tstep gen (ltCfg toU) st (.draw a win size)).1.world b = st.world b := by
+  simp only [tstep]
+  exact ⟨C08.set_same _ _ _, fun b hb => C08.set_other _ _ _ _ hb⟩
+
+end timeCode
